@@ -54,6 +54,9 @@ def cmp(a, b):
 
 class C20(Check):
     pid = "C20"
+    level_text = (
+        "Bounded exhaustive: all names <=6 (7) over two alphabets, all pairs <=4 (5), all permutations of k-subsets of a pool with a re-sort after renaming, parametric families for the stated order facts."
+    )
     technique = (
         "exhaustive scope enumeration on the real sort key / sort methods: all names "
         "<= n over a 7-letter alphabet, all pairs, all permutations of k-subsets, "
